@@ -351,15 +351,17 @@ def families(opts):
                 for i in range(n):
                     if i in idx:
                         a, ix = idx[i]
-                        val[i] = out['states'][ix] if kinds[i] == 'S' else out[a][ix]
+                        val[i] = out[a][ix]
                 val['t'] = D.VOI
                 for i in range(n):
-                    if kinds[i] == 'K' or i == drop or i not in val or any(j not in val for j in reads[i]):
+                    if kinds[i] == 'K' or i == drop or i in want_ext or i not in val or any(j not in val for j in reads[i]):
                         continue
                     rsum = sum(val[j] for j in reads[i])
                     if kinds[i] == 'E':
                         res_ = val[i] - (D.CONST[i] + rsum)
                     elif kinds[i] == 'S':
+                        if idx[i][0] != 'states':
+                            continue
                         res_ = out['rates'][idx[i][1]] - (D.CONST[i] + rsum)
                     else:
                         res_ = rsum + D.CONST[i] - val[i]
